@@ -142,7 +142,7 @@ def tracegen_stage(tier_, key):
             r = json.loads(l)
             samples.append({"cfg": summarize_cfg(byid[r["id"]]["cfg"]), "mode": byid[r["id"]]["mode"], "seed": byid[r["id"]]["seed"],
                             "bytes_hex": bytes(r["bytes"]).hex()[:160], "n_events": len(r["ev"]),
-                            "claimed_opcodes": [e["op"] for e in r["ev"] if e["op"] >= 0][:40]})
+                            "claimed_opcodes": [e["op"] for i, e in enumerate(r["ev"]) if e["op"] >= 0 and i > 0 and e["len"] > r["ev"][i - 1]["len"]][:40]})
         return {"findings": out[:5000], "coverage": cov, "samples": samples}
     return cached(key, "tracegen_%s_%d" % (tier_, seed()), compute)
 
